@@ -42,6 +42,7 @@ class World:
         self.today = "20240107"  # what date.today() answers in this world
         self.hash_path = f"{zdir}/.zorg/file_hash.json"
         self.wl_path = f"{zdir}/.zorg/error_file_whitelist.txt"
+        self.nextids_path = f"{zdir}/.zorg/next_ids.json"
 
     # ------------------------------------------------------------------ hooks
     def probes(self) -> dict:
@@ -92,8 +93,18 @@ class World:
                 if isinstance(mode, str) and any(c in mode for c in "wax+"):
                     st.trace.append(("open_w", p))
                 return [(Opaque("vhandle", p), st)]
-            if name in ("touch", "mkdir", "unlink"):
+            if name in ("touch", "mkdir"):
                 return [(None, st)]
+            if name in ("unlink", "rmdir"):
+                st.trace.append(("unlink", p))
+                return [(None, st)]
+            if name in ("glob", "rglob", "iterdir") and p.rstrip("/") == f"{W.zdir}/.zorg":
+                # the data directory: the hash map (when it exists), the error whitelist and the ZID counters
+                import fnmatch
+
+                pat = args[0] if args and isinstance(args[0], str) else "*"
+                have = ([W.hash_path] if W.old_map is not None else []) + [W.wl_path, W.nextids_path]
+                return [(st.alloc(HObj("list", items=[vpath(x) for x in have if fnmatch.fnmatch(x.rsplit("/", 1)[-1], pat.rsplit("/", 1)[-1])])), st)]
             if name == "rglob":
                 return [(st.alloc(HObj("list", items=[vpath(f"{W.zdir}/{n}") for n in W.files])), st)]
             if name == "resolve":
@@ -268,6 +279,44 @@ class World:
         return "?"
 
     # ------------------------------------------------------------------ running
+    def run_through_runner(self, runner_qual: str, cfg_fields, max_states: int = 6000):
+        """The CLI runner `runner_qual(cfg)` interpreted up to `messagebus.handle`, whose command list is captured; each captured command is then handed to
+        its registered command handler in this world.  -> [(value, trace, imprecise)] of the handler runs (or of the runner, if it hands over nothing)."""
+        import ast as _ast
+
+        captured: list = []
+
+        def handle(I, args, kwargs, st, node):
+            msgs = args[2] if len(args) > 2 else kwargs.get("messages")
+            items = I.B.iter_values(I, msgs, st)
+            st.meta["captured_cmds"] = tuple(items or ())
+            return [(None, st)]
+
+        I = Interp(self.model, probes={**self.probes(), "zorg.service.messagebus.handle": handle}, max_states=max_states)
+        st = State()
+        cfg = st.alloc(HObj("obj", cls="cfg", fields=cfg_fields(st)))
+        mb = self.model.module_of("zorg.service.messagebus")
+        tab = mb.assigns.get("COMMAND_HANDLERS")
+        out = []
+        for v, s in I.run_function(runner_qual, [cfg], st=st):
+            cmds = s.meta.get("captured_cmds", ())
+            if isinstance(v, Raised) or not cmds:
+                out.append((v, list(s.trace), list(s.imprecise) + ([] if cmds else ["the runner handed no command to messagebus.handle"])))
+                continue
+            for cmd in cmds:
+                cls = s.obj(cmd).cls.split(".")[-1] if isinstance(cmd, Ref) else "?"
+                hq = None
+                if isinstance(tab, _ast.Dict):
+                    for k, val in zip(tab.keys, tab.values):
+                        if k is not None and _ast.unparse(k).split(".")[-1] == cls:
+                            hq = self.model.resolve_expr(mb, val)
+                if hq is None:
+                    out.append((v, list(s.trace), list(s.imprecise) + [f"no registered handler for {cls}"]))
+                    continue
+                for v2, s2 in I.run_function(hq, [cmd, Opaque("vsession", "")], st=s):
+                    out.append((v2, list(s2.trace), list(s2.imprecise)))
+        return out
+
     def run(self, qual: str, cmd_fields: dict, max_states: int = 6000, build=None, probes=None):
         I = Interp(self.model, probes={**self.probes(), **(probes or {})}, max_states=max_states)
         st = State()
